@@ -356,14 +356,14 @@ def rgoal(gid, conj):
 # the direct oracle (implementation only)
 
 
-def dense_min(curve, q, n=1500):
+def dense_min(curve, q, n=600):
     """smallest distance of q to the curve on a dense sample, refined around the best sample"""
     lo, hi = float(curve.bounds[0]), float(curve.bounds[1])
     ts = np.linspace(lo, hi, n)
     ds = [float(np.linalg.norm(curve.get_point(t) - q)) for t in ts]
     i = int(np.argmin(ds))
     a, b = ts[max(i - 1, 0)], ts[min(i + 1, n - 1)]
-    ts2 = np.linspace(a, b, 400)
+    ts2 = np.linspace(a, b, 200)
     ds2 = [float(np.linalg.norm(curve.get_point(t) - q)) for t in ts2]
     j = int(np.argmin(ds2))
     return ds2[j], float(ts2[j])
@@ -388,8 +388,9 @@ def param_of(curve, p, lo, hi, n=300):
     return t, d
 
 
-def oracle_case(case):
-    """Returns None or a string saying how the property fails on the implementation's output."""
+def oracle_case(case, ob=None):
+    """Returns None or a string saying how the property fails on the implementation's output.
+    ob: the observation of make_edge for an edge case, if the caller has it already."""
     spec = case["spec"]
     curve = build(spec)
     kind = spec["kind"]
@@ -492,7 +493,8 @@ def oracle_case(case):
                 return "closest parameter %r at distance %.9g, dense sample t=%r at %.9g" % (res, d, td, dd)
         return None
     if op == "edge":
-        ob = make_edge(curve, case["v1"], case["v2"], case["n_points"], case["representation"])
+        if ob is None:
+            ob = make_edge(curve, case["v1"], case["v2"], case["n_points"], case["representation"])
         ext = case["extent"]
         ps, pe = ob["ps"], ob["pe"]
         pts = np.array(ob["points"]).reshape(-1, 3)
@@ -542,9 +544,9 @@ def oracle_case(case):
     raise ValueError(op)
 
 
-def safe_oracle(case):
+def safe_oracle(case, ob=None):
     try:
-        return oracle_case(case)
+        return oracle_case(case, ob)
     except Exception as e:  # the property quantifies over valid inputs: an exception is a failure
         return "raises %s: %s" % (type(e).__name__, str(e)[:200])
 
@@ -679,12 +681,12 @@ def length_checks(cc, a, b, L, rng, with_tie=True):
         if kind == "line":
             qs.append("qclose_list %s (map %s (qlinspace %s %s %d)) %s" % (tol, cc.FQ, Q(a), Q(b), n, QVL(py)))
         else:
-            for j in sorted({0, rng.randint(1, n - 2), n - 1}):
+            for j in sorted({rng.choice([0, n - 1]), rng.randint(1, n - 2)}):
                 rs.append("dist (%s (lin_at %s %s %d %d)) %s <= %s" % (cc.F, R(a), R(b), n, j, V(py[j]), R(cc.tol)))
     return qs, rs
 
 
-def case_checks(cc, case, res, rng):
+def case_checks(cc, case, res, rng, ob=None):
     """Run the implementation on the case.  Returns (list of rational boolean checks, list of real-valued goals);
     every real-valued goal is a list of conjuncts.  Raises Boundary for a degenerate case."""
     curve, kind, p = cc.curve, cc.kind, cc.p
@@ -791,7 +793,7 @@ def case_checks(cc, case, res, rng):
         qs.append("Qle_bool %s %s && Qle_bool %s %s" % (Q(cc.lo), Q(r), Q(r), Q(cc.hi)))
         if trans:
             conj = []
-            for j in sorted({k, rng.randint(0, cnt - 1)}):
+            for j in (k,):
                 conj.append("dist (%s (lin_at %s %s %d %d)) %s <= %s" % (cc.F, R(cc.lo), R(cc.hi), cnt, j, V(cs[j]), rtol))
             conj.append("dist (%s %s) %s <= dist (%s %s) %s + %s" % (cc.F, R(r), RQ, cc.F, R(t0), RQ, R(d9)))
             # certificate of global optimality (C16_closest_circle: circle_lb is a lower bound of the squared distance)
@@ -816,7 +818,8 @@ def case_checks(cc, case, res, rng):
                           % (p, QQ, Q(d4), cc.FQ, Q(r), QQ))
         return qs, rs
     if op == "edge":
-        ob = make_edge(curve, case["v1"], case["v2"], case["n_points"], case["representation"])
+        if ob is None:
+            ob = make_edge(curve, case["v1"], case["v2"], case["n_points"], case["representation"])
         res.count("edge written as " + ob["keyword"])
         ps, pe, n = ob["ps"], ob["pe"], case["n_points"]
         py = ob["points"]
@@ -844,6 +847,15 @@ def case_checks(cc, case, res, rng):
 
 
 KINDS = ["discrete", "linear", "linear", "spline", "line", "circle", "helix"]
+
+
+def kind_of(k):
+    """kind of the k-th curve of a run; every third circle/helix is replaced (their points need the `interval` tactic,
+    about 0.4 s of CPU per compared point)"""
+    kind = KINDS[k % len(KINDS)]
+    if (k // len(KINDS)) % 3 == 2 and kind in ("circle", "helix"):
+        kind = "spline" if kind == "circle" else "discrete"
+    return kind
 
 
 def strip(case):
@@ -912,7 +924,7 @@ class C16(Prop):
         gid = 0
         nzig = ctx.n(8, 60)
         for k in range(ncurves + nzig):
-            kind = KINDS[k % len(KINDS)] if k < ncurves else "zigzag"
+            kind = kind_of(k) if k < ncurves else "zigzag"
             spec = gen_spec(ctx.rng, kind)
             try:
                 curve = build(spec)
@@ -950,14 +962,20 @@ class C16(Prop):
             res.evaluations += 1
             res.count("kind=" + ("zigzag" if cc.spec.get("zigzag") else cc.kind))
             res.count("op=" + case["op"])
+            ob = None
+            if case["op"] == "edge":
+                try:  # one assembly per edge case, shared by the oracle and the correspondence
+                    ob = make_edge(cc.curve, case["v1"], case["v2"], case["n_points"], case["representation"])
+                except Exception:
+                    ob = None  # both report the exception themselves
             if case["op"] != "pointat":
-                why = safe_oracle(case)
+                why = safe_oracle(case, ob)
                 if why:
                     rp = strip(case)
                     rp["why"] = why
                     res.oracle_failures.append(rp)
             try:
-                qs, rs = case_checks(cc, case, res, ctx.rng)
+                qs, rs = case_checks(cc, case, res, ctx.rng, ob)
             except Boundary:
                 res.boundary += 1
                 continue
@@ -1062,7 +1080,7 @@ class C16(Prop):
             return fails[:5]
         # 2. seeded random search with the direct oracle, more cases per curve
         for k in range(ctx.n(150, 1500)):
-            kind = KINDS[k % len(KINDS)]
+            kind = kind_of(k)
             spec = gen_spec(ctx.rng, kind)
             try:
                 curve = build(spec)
